@@ -156,6 +156,21 @@ def gen_emission(loader, check, kinds, replay_on=True, first=None):
                         return it.call(irkit.C(loader, "Ternary"), ["cond", c, x, y], {}), [c, x, y]
                     emit.run_emission(check, loader, "Ternary.il_exec", f"cond={ka}:{tname(ta)} arms={karm}:{tname(tarm)}", build,
                                       replay_builder=R(lambda sp: ["ternary", sp[0], sp[1], sp[2]]))
+    # conditions of every bit-vector valued node class (a ternary, a cast, an arithmetic result ... as condition): always also in the
+    # quick tier - whether a condition is wrapped in NON_ZERO is decided per node class
+    if first is None or first == kinds1[0]:
+        for kc in [k for k in irkit.BV_KINDS if k not in kinds]:
+            for ta in ((True, 32), (False, 8)):
+                def build(it, kc=kc, ta=ta):
+                    c = irkit.mk_operand(it, kc, ta, "c")
+                    x, y = irkit.mk_operand(it, "Variable", (True, 32), "a"), irkit.mk_operand(it, "Variable", (True, 32), "b")
+                    return it.call(irkit.C(loader, "Ternary"), ["cond", c, x, y], {}), [c, x, y]
+                emit.run_emission(check, loader, "Ternary.il_exec", f"cond={kc}:{tname(ta)} arms=Variable:st32", build, replay_builder=None)
+
+                def build2(it, kc=kc, ta=ta):
+                    a, b = irkit.mk_operand(it, kc, ta, "a"), irkit.mk_operand(it, "Variable", (False, 16), "b")
+                    return it.call(irkit.C(loader, "BooleanOp"), ["op", a, b, LT("&&")], {}), [a, b]
+                emit.run_emission(check, loader, "BooleanOp.il_exec(&&)", f"kinds={kc},Variable type(a)={tname(ta)}", build2, replay_builder=None)
 
 
 # ------------------------------------------------------------------------------------------ callbacks
